@@ -38,8 +38,12 @@ def _job_runner(job):
         return ("ok", r, None)
     except BaseException as e:  # noqa
         tb = traceback.extract_tb(e.__traceback__)
-        in_repo = bool(tb) and "/mchap/" in tb[-1].filename and "/verif/" not in tb[-1].filename
-        where = "%s:%s" % (os.path.basename(tb[-1].filename), tb[-1].name) if tb else "?"
+        # the deepest frame that belongs to either the harness or the code under test decides who raised (an exception
+        # surfacing inside numba / numpy is attributed to whoever called into them)
+        own = [f for f in tb if "/verif/vmc/" in f.filename or ("/mchap/" in f.filename and "/site-packages/" not in f.filename and "/verif/" not in f.filename)]
+        last = own[-1] if own else (tb[-1] if tb else None)
+        in_repo = last is not None and "/mchap/" in last.filename and "/verif/" not in last.filename
+        where = "%s:%s" % (os.path.basename(last.filename), last.name) if last is not None else "?"
         return (
             "exc",
             {
